@@ -263,9 +263,9 @@ def r1(ctx: RuleCtx) -> None:
                     for c2 in _own_calls(f2):
                         if call_name(c2) == f'self.{meth}':
                             pending.append((q2, c2))
-    ctx.floor('NinjaBuildElement constructions in NinjaBackend', counts['ctor'], 36)
-    ctx.floor('call sites of create_phony_target', per_producer.get('create_phony_target', 0), 22)
-    ctx.floor('call sites of generate_link', per_producer.get('generate_link', 0), 2)
+    ctx.floor('NinjaBuildElement constructions in NinjaBackend', counts['ctor'], 1)
+    ctx.floor('call sites of create_phony_target', per_producer.get('create_phony_target', 0), 1)
+    ctx.floor('call sites of generate_link', per_producer.get('generate_link', 0), 1)
     ctx.note(f'element producers (return the element to the caller): {sorted(producers)}')
 
     # nobody else builds elements (expected zero) - the scan is live: it finds the 36 constructions above
@@ -284,7 +284,7 @@ def r1(ctx: RuleCtx) -> None:
                         inside += 1
                     else:
                         outside.append(f'{rel}:{q}')
-    ctx.floor('scan for element constructions is live (matches inside NinjaBackend)', inside, 36)
+    ctx.floor('scan for element constructions is live (matches inside NinjaBackend)', inside, 1)
     ctx.require(not outside, f'no build statement is created outside NinjaBackend ({len(files)} files scanned)', mod, BACKEND, 'NinjaBuildElement(...) outside NinjaBackend',
                 f'build statements are created outside NinjaBackend, where the pairing with add_build is not checked: {outside}')
 
@@ -306,7 +306,7 @@ def r2a(ctx: RuleCtx) -> None:
             first = _elem_args(mod, c).get(_param_names(mod.func(f'{ELEMENT}.__init__'))[0])
             ctx.require(first is not None and attr_chain(first) == 'self.all_outputs', f'{q}: {short(c, 70)} uses the shared registry', mod, q, c,
                         f'the registry argument is `{short(first, 40)}`, not self.all_outputs: outputs of this statement are checked against a different set', c)
-    ctx.floor('constructions checked for the registry argument', n, 36)
+    ctx.floor('constructions checked for the registry argument', n, 1)
     # __init__ stores the first parameter
     init = mod.func(f'{ELEMENT}.__init__')
     ps = _param_names(init)
@@ -381,7 +381,7 @@ def r2a(ctx: RuleCtx) -> None:
         for node in ast.walk(m2.tree):
             if isinstance(node, ast.Attribute) and node.attr == 'all_outputs':
                 judge(node, m2.enclosing_func(node) or '<module>')
-    ctx.floor('writers of the registry found by the scan (init + check_outputs.add)', live, 3)
+    ctx.floor('writers of the registry found by the scan (init + check_outputs.add)', live, 1)
 
 
 def _errors_polarity(info: L.FnInfo, n: Node) -> T.Optional[bool]:
@@ -398,6 +398,13 @@ def _errors_polarity(info: L.FnInfo, n: Node) -> T.Optional[bool]:
         return pol
     if isinstance(e, ast.Call) and call_name(e) == 'bool' and len(e.args) == 1 and attr_chain(e.args[0]) == 'self.output_errors':
         return pol
+    if isinstance(e, ast.Compare) and len(e.ops) == 1 and isinstance(e.left, ast.Call) and call_name(e.left) == 'len' and len(e.left.args) == 1 and \
+            attr_chain(e.left.args[0]) == 'self.output_errors' and isinstance(e.comparators[0], ast.Constant) and isinstance(e.comparators[0].value, int):
+        k, op = e.comparators[0].value, e.ops[0]
+        if (isinstance(op, ast.Gt) and k == 0) or (isinstance(op, ast.GtE) and k == 1) or (isinstance(op, ast.NotEq) and k == 0):
+            return pol
+        if (isinstance(op, ast.Eq) and k == 0) or (isinstance(op, ast.Lt) and k == 1) or (isinstance(op, ast.LtE) and k == 0):
+            return not pol
     if isinstance(e, ast.Compare) and len(e.ops) == 1:
         l, r = e.left, e.comparators[0]
         if attr_chain(r) == 'self.output_errors':
@@ -417,22 +424,35 @@ def r2b(ctx: RuleCtx) -> None:
     ps = _param_names(info.fn)
     if not ps:
         raise Undecided('NinjaBuildElement.write has no file parameter')
-    writes = [n for n in cfg.nodes if any(call_name(c) == f'{ps[0]}.write' for c in L.node_calls(n))]
-    ctx.floor('outfile.write calls in NinjaBuildElement.write', len(writes), 3)
-    guards: T.List[Node] = []
-    for n in cfg.nodes:
-        if n.kind != 'test' or not isinstance(n.ast, ast.If):
-            continue
-        pol = _errors_polarity(info, n)
-        if pol is None:
-            continue
-        seterr = [cfg.nodes[b] for b, lab in cfg.succ[n.id] if lab is pol]
-        r = cfg.reachable(seterr, [], include_start=True)
-        if cfg.exit_return.id in r or any(w.id in r for w in writes):
-            continue   # errors set, yet the statement can still be written / the function return normally
-        if cfg.exit_raise.id not in r:
-            continue
-        guards.append(n)
+    # a write: outfile.write(...) or handing the file to any other call (a helper that writes)
+    writes = [n for n in cfg.nodes if any(call_name(c) == f'{ps[0]}.write' or any(isinstance(a, ast.Name) and a.id == ps[0] for a in list(c.args) + [k.value for k in c.keywords])
+                                          for c in L.node_calls(n))]
+    ctx.floor('statements of NinjaBuildElement.write that write to the file', len(writes), 1)
+
+    def error_guards(fi: L.FnInfo, ws: T.List[Node], depth: int = 0) -> T.List[Node]:
+        """Nodes after which self.output_errors is known to be empty: a test whose "set" edge only raises, or a helper that is such a guard throughout."""
+        out: T.List[Node] = []
+        c2 = fi.cfg
+        for n in c2.nodes:
+            if n.kind == 'test' and isinstance(n.ast, ast.If):
+                pol = _errors_polarity(fi, n)
+                if pol is None:
+                    continue
+                seterr = [c2.nodes[b] for b, lab in c2.succ[n.id] if lab is pol]
+                r = c2.reachable(seterr, [], include_start=True)
+                if c2.exit_return.id in r or any(w.id in r for w in ws) or c2.exit_raise.id not in r:
+                    continue   # errors set, yet the statement can still be written / the function return normally
+                out.append(n)
+            elif depth == 0:
+                for c in L.node_calls(n):
+                    cn = call_name(c) or ''
+                    if cn.startswith('self.') and cn.count('.') == 1 and not c.args and not c.keywords and mod.has_func(f'{ELEMENT}.{cn[5:]}'):
+                        hi = _infos(ctx).get(f'{ELEMENT}.{cn[5:]}')
+                        hg = error_guards(hi, [], 1)
+                        if hg and hi.cfg.exit_return.id not in hi.reach(hi.cfg.entry, hg):
+                            out.append(n)
+        return out
+    guards = error_guards(info, writes)
     if not guards:
         _absence_provable(info, 'a raising test on self.output_errors')
     bad = [w for w in writes if not guards or not cfg.dominated_by_any(w, guards)]
@@ -461,17 +481,26 @@ def _registering_loops(info: L.FnInfo) -> T.List[T.Tuple[Node, str, T.List[Node]
     """Loops of check_outputs whose body inserts the loop variable into self.all_outputs."""
     out = []
     for n in info.cfg.nodes:
-        if n.kind != 'iter' or not isinstance(n.ast.target, ast.Name):  # type: ignore[union-attr]
+        if n.kind != 'iter':
             continue
-        v = n.ast.target.id  # type: ignore[union-attr]
         body = set()
         for st in n.ast.body:  # type: ignore[union-attr]
             for x in ast.walk(st):
                 body.add(id(x))
-        adds = [m for m in info.cfg.nodes if m.ast is not None and id(m.ast) in body and any(
-            isinstance(c.func, ast.Attribute) and c.func.attr == 'add' and attr_chain(L.inline_locals(info, c.func.value, m)) == 'self.all_outputs'
-            and len(c.args) == 1 and isinstance(c.args[0], ast.Name) and c.args[0].id == v for c in L.node_calls(m))]
-        if adds:
+        # the registered name: the loop variable, or a local that is (re)defined in every iteration (`n = names[i]`)
+        per_var: T.Dict[str, T.List[Node]] = {}
+        for m in info.cfg.nodes:
+            if m.ast is None or id(m.ast) not in body:
+                continue
+            for c in L.node_calls(m):
+                if isinstance(c.func, ast.Attribute) and c.func.attr == 'add' and attr_chain(L.inline_locals(info, c.func.value, m)) == 'self.all_outputs' \
+                        and len(c.args) == 1 and isinstance(c.args[0], ast.Name):
+                    v = c.args[0].id
+                    is_loop_var = isinstance(n.ast.target, ast.Name) and n.ast.target.id == v  # type: ignore[union-attr]
+                    defs = info.defs().get(v, [])
+                    if is_loop_var or (defs and all(d.node.ast is not None and id(d.node.ast) in body for d in defs)):
+                        per_var.setdefault(v, []).append(m)
+        for v, adds in per_var.items():
             out.append((n, v, adds))
     return out
 
@@ -510,12 +539,17 @@ def r2c(ctx: RuleCtx) -> None:
             while isinstance(t, ast.UnaryOp) and isinstance(t.op, ast.Not):
                 pol = not pol
                 t = t.operand
-            if isinstance(t, ast.Compare) and len(t.ops) == 1 and isinstance(t.ops[0], (ast.In, ast.NotIn)) and \
-                    attr_chain(t.comparators[0]) == 'self.all_outputs' and isinstance(t.left, ast.Name) and t.left.id == v:
-                if isinstance(t.ops[0], ast.NotIn):
-                    pol = not pol
-                tests.append((n, pol))
+            mb = _membership(t)
+            if mb is not None and attr_chain(mb[1]) == 'self.all_outputs' and \
+                    norm(mb[0]) in (v, norm(L.inline_locals(info, ast.Name(id=v, ctx=ast.Load()), n))):
+                tests.append((n, pol if mb[2] else not pol))
         if not tests:
+            for st in ln.ast.body:  # type: ignore[union-attr]
+                for x in ast.walk(st):
+                    if isinstance(x, ast.Call) and (call_name(x) or '').startswith('self.') and (call_name(x) or '').count('.') == 1:
+                        raise Undecided(f'check_outputs: no membership test on `{v}` recognised, but `{short(x, 50)}` may do it')
+                    if isinstance(x, ast.Compare) and any(isinstance(o, (ast.In, ast.NotIn)) for o in x.ops):
+                        raise Undecided(f'check_outputs: membership test `{short(x, 50)}` is in a form the rule does not read')
             ctx.violation(mod, qn, ln.ast.iter, f'the loop that registers `{v}` never tests `{v} in self.all_outputs`: a second producer of the same output is not detected', ln.ast)  # type: ignore[union-attr]
             continue
         if len(tests) != 1:
@@ -568,7 +602,7 @@ def r2c(ctx: RuleCtx) -> None:
                         continue
                     if not (q == qn and isinstance(st, ast.Assign) and val is not None and _truthy_str(val) is True):
                         bad.append((q, st))
-    ctx.floor('stores to output_errors seen (init + check_outputs)', live, 2)
+    ctx.floor('stores to output_errors seen (init + check_outputs)', live, 1)
     for q, st in bad:
         ctx.violation(mod, q, st, f'`{short(st, 70)}` can reset or blank self.output_errors after a duplicate was recorded', st)
     if not bad:
@@ -576,38 +610,11 @@ def r2c(ctx: RuleCtx) -> None:
 
 
 def _flatten_concat(e: ast.AST) -> T.List[T.Union[str, ast.AST]]:
-    if isinstance(e, ast.JoinedStr):
-        out: T.List[T.Union[str, ast.AST]] = []
-        for v in e.values:
-            if isinstance(v, ast.Constant):
-                out.append(str(v.value))
-            elif isinstance(v, ast.FormattedValue):
-                out.append(v.value)
-        return out
-    if isinstance(e, ast.BinOp) and isinstance(e.op, ast.Add):
-        return _flatten_concat(e.left) + _flatten_concat(e.right)
-    if isinstance(e, ast.Constant) and isinstance(e.value, str):
-        return [e.value]
-    if isinstance(e, ast.Call) and isinstance(e.func, ast.Attribute) and e.func.attr == 'format' and isinstance(e.func.value, ast.Constant) \
-            and isinstance(e.func.value.value, str) and not e.keywords:
-        import string
-        out = []
-        i = 0
-        for lit, field, spec, conv in string.Formatter().parse(e.func.value.value):
-            if lit:
-                out.append(lit)
-            if field is None:
-                continue
-            if field == '':
-                idx = i
-                i += 1
-            elif field.isdigit():
-                idx = int(field)
-            else:
-                raise Undecided(f'build line `{short(e, 60)}`: named format field')
-            out.append(e.args[idx])
-        return out
-    return [e]
+    """String template normal form (see c04_lib.template_parts)."""
+    p = L.template_parts(e)
+    if p is None:
+        raise Undecided(f'string template `{short(e, 60)}` uses format specs / conversions')
+    return p
 
 
 def _build_line(info: L.FnInfo) -> T.Tuple[Node, T.List[ast.AST]]:
@@ -658,13 +665,13 @@ def r2d(ctx: RuleCtx) -> None:
             raise Undecided(f'write(): `{short(e, 40)}` left of the colon does not come from a field of the element')
         for f in fs:
             emitted.setdefault(f, norm(e))
-    ctx.floor('output expressions left of the colon in the build line', len(left), 2)
+    ctx.floor('output expressions left of the colon in the build line', len(left), 1)
     c = infos.get(f'{ELEMENT}.check_outputs')
     trc = L.Tracer(c)
     registered: T.Set[str] = set()
     loops = _registering_loops(c)
     for ln, v, adds in loops:
-        registered |= L.self_fields(trc.origins(ln.ast.iter, ln))  # type: ignore[union-attr]
+        registered |= L.self_fields(trc.origins(ast.Name(id=v, ctx=ast.Load()), adds[0]))
     registered.discard('all_outputs')
     if not loops:
         raise Undecided('check_outputs: no registering loop recognised (R2c decides whether anything is registered at all)')
@@ -736,7 +743,7 @@ def r3(ctx: RuleCtx) -> None:
             for s in shs:
                 defined.setdefault(s, q)
             ctx.ok(f'{q}: add_rule(NinjaRule({short(e, 40)}, ...)) defines {sorted(L.show(s) for s in shs)}')
-    ctx.floor('NinjaRule definitions', ndef, 25)
+    ctx.floor('NinjaRule definitions', ndef, 1)
     # the chain add_rule -> ruledict[rule.name]
     ar = infos.get(f'{BACKEND}.add_rule')
     rp = _param_names(ar.fn)
@@ -782,7 +789,7 @@ def r3(ctx: RuleCtx) -> None:
         ctx.require(not missing, f'{q}: rule `{short(e, 40)}` = {sorted(L.show(s) for s in shs)} is defined', mod, q, anchor if isinstance(anchor, ast.Call) else norm(anchor),
                     f'build statement uses rule name(s) {missing} (from `{short(e, 50)}`) that no add_rule(NinjaRule(...)) defines; defined shapes: '
                     f'{sorted(L.show(s) for s in defined)[:40]}', anchor)
-    ctx.floor('rule-name uses (constructions + rulename stores)', nuse, 37)
+    ctx.floor('rule-name uses (constructions + rulename stores)', nuse, 1)
     ctx.note(f'defined rule-name shapes: {sorted(L.show(s) for s in defined)}')
 
 
@@ -898,9 +905,15 @@ def r3b(ctx: RuleCtx) -> None:
     if len(rsv) != 1 or not isinstance(rsv[0], L.Def) or rsv[0].kind != 'iter' or rsv[0].value is None:
         raise Undecided('NinjaRule.write: the header suffix is not the variable of a loop over the variants')
     src = rsv[0].value
-    if isinstance(src, ast.Call) and isinstance(src.func, ast.Name) and not src.args and mod.has_func(f'NinjaRule.write.{src.func.id}'):
-        # the variants come from a nested generator
-        g = mod.func(f'NinjaRule.write.{src.func.id}')
+    gen_q = None
+    if isinstance(src, ast.Call) and not src.args and not src.keywords:
+        if isinstance(src.func, ast.Name) and mod.has_func(f'NinjaRule.write.{src.func.id}'):
+            gen_q = f'NinjaRule.write.{src.func.id}'
+        elif (call_name(src) or '').startswith('self.') and (call_name(src) or '').count('.') == 1 and mod.has_func(f'NinjaRule.{call_name(src)[5:]}'):  # type: ignore[index]
+            gen_q = f'NinjaRule.{call_name(src)[5:]}'  # type: ignore[index]
+    if gen_q is not None:
+        # the variants come from a nested generator or a generator method
+        g = mod.func(gen_q)
         gt = tables.extract(g, effects=lambda st: ('yield ' + norm(st.value.value)) if isinstance(st, ast.Expr) and isinstance(st.value, ast.Yield) else None, name='rule variants')
     elif isinstance(src, ast.Name):
         # the variants are collected in a local list: empty at first, then `append(<suffix>)` under conditions
@@ -925,19 +938,37 @@ def r3b(ctx: RuleCtx) -> None:
         gt = tables.extract(rw.fn, body=stmts, effects=leff, inline=False, name='rule variants')
     else:
         raise Undecided(f'NinjaRule.write: the rule variants come from `{short(src, 60)}`, a form the rule does not read')
-    A_REF = tables.Atom('truth', ('self.refcount',))
-    A_RSPC = tables.Atom('truth', ('self.rsprefcount',))
-    unknown = [a for a in gt.atoms() if a not in (A_REF, A_RSPC)]
+    def counter(a: tables.Atom) -> T.Optional[T.Tuple[str, bool]]:
+        """atom about a reference counter -> (field, truth of the atom when the counter is non-zero): `x`, `x > 0`, `x != 0`, `x >= 1`, `x == 0` ..."""
+        if a.kind == 'truth' and a.args[0] in ('self.refcount', 'self.rsprefcount'):
+            return a.args[0], True
+        if a.kind == 'cmp':
+            op, x, y = a.args
+            for fld in ('self.refcount', 'self.rsprefcount'):
+                if op == 'lt' and x == '0' and y == fld:
+                    return fld, True          # 0 < n
+                if op == 'lt' and x == fld and y == '1':
+                    return fld, False         # n < 1
+                if op == 'eq' and {x, y} == {fld, '0'}:
+                    return fld, False         # n == 0
+        return None
+    sem = {a: counter(a) for a in gt.atoms()}
+    unknown = [a for a, c_ in sem.items() if c_ is None]
     if unknown:
         raise Undecided(f'NinjaRule.write variants: unknown atoms {unknown}')
     okg = True
     why = ''
-    for wd in gt.worlds([A_REF, A_RSPC]):
-        rows = gt.fire(wd)
-        ex = tuple(x for x, on in (("yield ''", wd[A_REF]), ("yield '_RSP'", wd[A_RSPC])) if on)
-        if len(rows) != 1 or tuple(sorted(rows[0].effects)) != tuple(sorted(ex)):
-            okg = False
-            why = f'for refcount={wd[A_REF]}, rsprefcount={wd[A_RSPC]} the variants written are {[list(r.effects) for r in rows]}, expected {list(ex)}'
+    for ref in (True, False):
+        for rspc in (True, False):
+            val = {'self.refcount': ref, 'self.rsprefcount': rspc}
+            wd = {a: (val[c_[0]] if c_[1] else not val[c_[0]]) for a, c_ in sem.items() if c_ is not None}
+            rows = gt.fire(wd)
+            ex = tuple(x for x, on in (("yield ''", ref), ("yield '_RSP'", rspc)) if on)
+            if len(rows) != 1:
+                raise Undecided(f'NinjaRule.write variants: {len(rows)} rows fire for refcount={ref}, rsprefcount={rspc}')
+            if tuple(sorted(rows[0].effects)) != tuple(sorted(ex)):
+                okg = False
+                why = f'for refcount={ref}, rsprefcount={rspc} the variants written are {[list(r.effects) for r in rows]}, expected {list(ex)}'
     ctx.require(okg, 'NinjaRule.write: plain variant iff refcount, _RSP variant iff rsprefcount', mod, 'NinjaRule.write', g,
                 f'{why}: a referenced rule variant is not written (or an unreferenced one is)')
 
@@ -998,34 +1029,59 @@ def _source_of(e: ast.AST) -> T.Optional[T.Tuple[str, T.Optional[bool]]]:
 def r4(ctx: RuleCtx) -> None:
     mod = ctx.repo.module(NB)
     infos = _infos(ctx)
-    qn = f'{BACKEND}.generate_ending'
-    info = infos.get(qn)
+    # find the aggregate construction by role: (a) a loop over a constant display of (name constant, targets) pairs, or
+    # (b) a helper with (name, targets) parameters that is called with name constants - in any method of the backend
+    funcs = _backend_funcs(mod)
+    form = None
+    outer: T.Optional[Node] = None
+    rows: T.List[T.Tuple[str, ast.AST]] = []
+    for q0, f0 in funcs.items():
+        for st in walk_no_nested(f0):
+            if isinstance(st, ast.For) and isinstance(st.iter, (ast.List, ast.Tuple)) and isinstance(st.target, ast.Tuple) and len(st.target.elts) == 2 \
+                    and all(isinstance(x, ast.Name) for x in st.target.elts) and st.iter.elts \
+                    and all(isinstance(x, ast.Tuple) and len(x.elts) == 2 and isinstance(x.elts[0], ast.Constant) for x in st.iter.elts) \
+                    and any(x.elts[0].value in AGGREGATES for x in st.iter.elts):  # type: ignore[union-attr]
+                if form is not None:
+                    raise Undecided('aggregates: more than one (aggregate name, targets) table')
+                form, qn = 'loop', q0
+                info = infos.get(q0)
+                outer = info.cfg.stmt_nodes(st)[0] if info.cfg.stmt_nodes(st) else None
+                nvar, dvar = (x.id for x in st.target.elts)  # type: ignore[union-attr]
+                rows = [(x.elts[0].value, x.elts[1]) for x in st.iter.elts]  # type: ignore[union-attr]
+    if form is None:
+        for q0, f0 in funcs.items():
+            ps0 = _param_names(f0)
+            if len(ps0) != 2:
+                continue
+            sites = [c for q1, f1 in funcs.items() for c in _own_calls(f1) if call_name(c) == f'self.{q0.split(".")[-1]}']
+            bound = [_bound(mod, c, q0) for c in sites]
+            if sites and all(isinstance(dict.get(b, ps0[0]), ast.Constant) for b in bound) and any(dict.get(b, ps0[0]).value in AGGREGATES for b in bound):
+                if form is not None:
+                    raise Undecided('aggregates: more than one helper is called with aggregate names')
+                form, qn = 'helper', q0
+                info = infos.get(q0)
+                nvar, dvar = ps0
+                rows = [(b[ps0[0]].value, b[ps0[1]]) for b in bound if ps0[1] in b]
+    if form is None or (form == 'loop' and outer is None):
+        raise Undecided('aggregates: neither a (name, targets) table loop nor a helper called with the aggregate names was found in the backend')
     cfg = info.cfg
-    # the table loop
-    outer = None
-    for n in cfg.nodes:
-        if n.kind == 'iter' and isinstance(n.ast.iter, (ast.List, ast.Tuple)) and isinstance(n.ast.target, ast.Tuple) and len(n.ast.target.elts) == 2 \
-                and all(isinstance(x, ast.Tuple) and len(x.elts) == 2 and isinstance(x.elts[0], ast.Constant) for x in n.ast.iter.elts):  # type: ignore[union-attr]
-            outer = n
-            break
-    if outer is None:
-        raise Undecided('generate_ending: the (aggregate name, targets) table loop was not found')
-    nvar, dvar = (x.id for x in outer.ast.target.elts)  # type: ignore[union-attr]
+    ctx.note(f'aggregates are built in {qn} ({form} form)')
     got: T.Dict[str, T.Any] = {}
-    for x in outer.ast.iter.elts:  # type: ignore[union-attr]
-        got[x.elts[0].value] = _source_of(x.elts[1]) or ('?', norm(x.elts[1]))
+    for nm, src in rows:
+        got[nm] = _source_of(src) or ('?', norm(src))
+    anchor_node = outer.ast if outer is not None else info.fn
     for name, want in AGGREGATES.items():
         if name not in got:
-            raise Undecided(f'generate_ending: the aggregate table has no constant row `{name}` (built elsewhere?)')
+            raise Undecided(f'aggregates: the aggregate table has no constant row `{name}` (built elsewhere?)')
         if got[name][0] == '?':
-            raise Undecided(f'generate_ending: aggregate `{name}` is fed from `{short(got[name][1], 60)}`, a source the rule does not read')
+            raise Undecided(f'aggregates: aggregate `{name}` is fed from `{short(got[name][1], 60)}`, a source the rule does not read')
         ctx.require(got.get(name) == want, f'aggregate {name} is fed from {want[0]}({"benchmark=" + str(want[1]) if want[1] is not None else ""})', mod, qn,
-                    f'aggregate {name}', f'aggregate `{name}` is fed from {got.get(name)}; the property requires {want}', outer.ast)
+                    f'aggregate {name}', f'aggregate `{name}` is fed from {got.get(name)}; the property requires {want}', anchor_node)
     # the element: outputs = name variable, rule phony, inputs = list filled in the inner loop
     elems = [c for c in _own_calls(info.fn) if _is_ctor(c, ELEMENT) and isinstance(_elem_args(mod, c).get('outfilenames'), ast.Name)
              and _elem_args(mod, c)['outfilenames'].id == nvar]  # type: ignore[attr-defined]
     if len(elems) != 1:
-        raise Undecided(f'generate_ending: {len(elems)} elements named by the table variable')
+        raise Undecided(f'aggregates: {len(elems)} elements named by the table variable')
     el = elems[0]
     ea = _elem_args(mod, el)
     en = info.node_of(el)
@@ -1033,30 +1089,44 @@ def r4(ctx: RuleCtx) -> None:
     ctx.require(isinstance(rule_e, ast.Constant) and rule_e.value == 'phony', 'the aggregates are phony statements', mod, qn, el,
                 f'aggregate statement uses rule {norm(rule_e)}, not phony', el)
     if not isinstance(ea.get('infilenames'), ast.Name):
-        raise Undecided('generate_ending: aggregate inputs are not a local list')
+        raise Undecided('aggregates: aggregate inputs are not a local list')
     lst = ea['infilenames'].id  # type: ignore[attr-defined]
     # list is (re)initialised empty inside the outer loop
-    ldefs = info.reaching(lst, en)
-    fresh = len(ldefs) == 1 and isinstance(ldefs[0], L.Def) and isinstance(ldefs[0].value, ast.List) and not ldefs[0].value.elts and \
-        outer.id in info.reach(ldefs[0].node) and ldefs[0].node.id in cfg.reachable([cfg.nodes[b] for b, lab in cfg.succ[outer.id] if lab == 'iter'], [outer], include_start=True)
-    in_outer = cfg.reachable([cfg.nodes[b] for b, lab in cfg.succ[outer.id] if lab == 'iter'], [outer], include_start=True)
+    ldefs = info.base_defs(lst, en)
+    if outer is not None:
+        in_outer = cfg.reachable([cfg.nodes[b] for b, lab in cfg.succ[outer.id] if lab == 'iter'], [outer], include_start=True)
+    else:
+        in_outer = {n.id for n in cfg.nodes}
+    comp = None
+    if len(ldefs) == 1 and isinstance(ldefs[0], L.Def) and isinstance(ldefs[0].value, ast.ListComp):
+        lc = ldefs[0].value
+        if len(lc.generators) == 1 and isinstance(lc.generators[0].iter, ast.Name) and lc.generators[0].iter.id == dvar and isinstance(lc.generators[0].target, ast.Name) \
+                and not lc.generators[0].ifs and info.reaching(dvar, ldefs[0].node) == info.reaching(dvar, en):
+            comp = lc
+        else:
+            raise Undecided(f'aggregates: `{lst}` starts as the comprehension `{short(lc, 70)}`, a form the rule does not read')
+    fresh = len(ldefs) == 1 and isinstance(ldefs[0], L.Def) and ldefs[0].node.id in in_outer and \
+        (comp is not None or (isinstance(ldefs[0].value, ast.List) and not ldefs[0].value.elts))
     stale = [d for d in ldefs if not isinstance(d, L.Def) or d.node.id not in in_outer]
     if not fresh and not stale:
-        raise Undecided(f'generate_ending: `{lst}` is created inside the table loop, but not as one empty list display')
+        raise Undecided(f'aggregates: `{lst}` is created inside the table loop, but not as one empty list display')
     ctx.require(fresh, f'the input list `{lst}` starts empty for each aggregate', mod, qn, f'{lst} = []',
                 f'the input list `{lst}` of the aggregate statement is not re-created empty inside the table loop: aggregates would share inputs', el)
     inner = [n for n in cfg.nodes if n.kind == 'iter' and isinstance(n.ast.iter, ast.Name) and n.ast.iter.id == dvar and isinstance(n.ast.target, ast.Name)]  # type: ignore[union-attr]
-    if len(inner) != 1:
-        raise Undecided(f'generate_ending: {len(inner)} loops over the aggregate targets')
-    il = inner[0]
-    tv = il.ast.target.id  # type: ignore[union-attr]
+    if comp is not None:
+        inner = [n for n in inner if any(id(c) in {id(x) for st in n.ast.body for x in ast.walk(st)} for _, c, _e in info.additions(lst))]  # type: ignore[union-attr]
+    if len(inner) != (0 if comp is not None and not inner else 1):
+        raise Undecided(f'aggregates: {len(inner)} loops over the aggregate targets')
+    il = inner[0] if inner else ldefs[0].node  # type: ignore[union-attr]
+    tv = il.ast.target.id if inner else comp.generators[0].target.id  # type: ignore[union-attr]
     rd = info.reaching(dvar, il)
-    ctx.require(len(rd) == 1 and isinstance(rd[0], L.Def) and rd[0].node.id == outer.id, 'the inner loop iterates the targets of the current table row', mod, qn,
-                il.ast.iter, f'`{dvar}` is rebound between the table row and the loop over it', il.ast)  # type: ignore[union-attr]
+    ctx.require(len(rd) == 1 and ((isinstance(rd[0], L.Def) and outer is not None and rd[0].node.id == outer.id) or (outer is None and rd[0] == L.ENTRY)),
+                'the inner loop iterates the targets of the current table row', mod, qn,
+                dvar, f'`{dvar}` is rebound between the table row and the loop over it', il.ast)
     # the first-output append on every iteration
     want_dir = f'self.get_target_dir({tv})'
     want_out = f'{tv}.get_outputs()[0]'
-    inner_body = {id(x) for st in il.ast.body for x in ast.walk(st)}  # type: ignore[union-attr]
+    inner_body = {id(x) for st in il.ast.body for x in ast.walk(st)} if inner else set()  # type: ignore[union-attr]
 
     def output_index(e: ast.AST) -> T.Optional[ast.AST]:
         """`<tv>.get_outputs()[k]` -> k, anything else -> None."""
@@ -1066,14 +1136,15 @@ def r4(ctx: RuleCtx) -> None:
     firsts = []
     unknown = []
     total = 0
-    for n, c in info.mutations().get(lst, []):
-        if id(c) not in inner_body:
-            continue
+    adds: T.List[T.Tuple[Node, ast.AST, T.Optional[ast.AST]]] = [(n, c, a) for n, c, a in info.additions(lst) if id(c) in inner_body]
+    if comp is not None:
+        adds.append((ldefs[0].node, comp, comp.elt))  # type: ignore[union-attr]
+    for n, c, a0 in adds:
         total += 1
-        if c.func.attr != 'append' or len(c.args) != 1:  # type: ignore[union-attr]
+        if a0 is None:
             unknown.append(c)
             continue
-        a = L.inline_locals(info, c.args[0], n)
+        a = L.inline_locals(info, a0, n) if c is not comp else a0
         if isinstance(a, ast.Call) and call_name(a) == 'os.path.join' and len(a.args) == 2 and not a.keywords:
             k = output_index(a.args[1])
             if k is None:
@@ -1092,12 +1163,12 @@ def r4(ctx: RuleCtx) -> None:
             unknown.append(c)
     if not firsts:
         if unknown:
-            raise Undecided(f'generate_ending: the inputs of the aggregate are added in a form the rule does not understand: `{short(unknown[0], 80)}`')
+            raise Undecided(f'aggregates: the inputs of the aggregate are added in a form the rule does not understand: `{short(unknown[0], 80)}`')
         ctx.violation(mod, qn, f'{lst}.append(<output of {tv}>)', f'the loop over `{dvar}` never adds an output of `{tv}` to the inputs `{lst}` of the aggregate '
                       f'({total} additions of other kinds)', il.ast)
         return
     fn_nodes = [n for n, c, a in firsts]
-    starts = [cfg.nodes[b] for b, lab in cfg.succ[il.id] if lab == 'iter']
+    starts = [cfg.nodes[b] for b, lab in cfg.succ[il.id] if lab == 'iter'] if inner and not any(c is comp for _, c, _a in firsts) else []
     esc = False
     for s in starts:
         if s in fn_nodes:
@@ -1107,9 +1178,9 @@ def r4(ctx: RuleCtx) -> None:
             esc = True
     ctx.require(not esc, 'every target of the row contributes its first output (no iteration skips the append)', mod, qn, f'{lst}.append(first output)',
                 f'an iteration of the loop over `{dvar}` can end without appending the first output of `{tv}` to `{lst}`: that target is not reachable from the aggregate', il.ast)
-    after = en.id in info.reach(il, []) and not (il.id in cfg.reachable([en], [outer]))
+    after = en.id in info.reach(il, []) and not (il.id in cfg.reachable([en], [outer] if outer is not None else []))
     if not after:
-        raise Undecided('generate_ending: the aggregate statement is not created straight after the loop over its targets')
+        raise Undecided('aggregates: the aggregate statement is not created straight after the loop over its targets')
     ctx.ok('the aggregate statement is created after the loop over its targets')
 
     # the sources
@@ -1124,17 +1195,54 @@ def r4(ctx: RuleCtx) -> None:
             k, v = (norm(x) for x in gen.target.elts)
             if not (norm(dc.key) == k and norm(dc.value) == v):
                 raise Undecided('get_build_by_default_targets: the comprehension does not map key to value unchanged')
-            okd = [norm(c) for c in gen.ifs] == [f'{v}.build_by_default']
-            if not okd and not gen.ifs:
-                okd = False      # no filter at all is a positive finding too: everything would be built by default
-            elif not okd and not all(f'{v}.build_by_default' in norm(c) for c in gen.ifs) and len(gen.ifs) == 1 and f'{v}.' not in norm(gen.ifs[0]):
-                raise Undecided(f'get_build_by_default_targets: filter `{short(gen.ifs[0], 60)}` is not about the target')
+            # same normal form as the loop spelling below: a table over the filter with the effect "included"
+            tests_ = gen.ifs
+            fake = ast.If(test=ast.BoolOp(op=ast.And(), values=list(tests_)) if len(tests_) > 1 else tests_[0], body=[ast.Expr(value=ast.Constant(value='included'))], orelse=[]) \
+                if tests_ else ast.Expr(value=ast.Constant(value='included'))
+            ast.fix_missing_locations(fake)
+            ftab = tables.extract(g, body=[fake], effects=lambda st: 'included' if isinstance(st, ast.Expr) and isinstance(st.value, ast.Constant) and st.value.value == 'included' else None,
+                                  inline=False, name='build_by_default filter')
         else:
             raise Undecided('get_build_by_default_targets does not iterate self.build.targets.items() in one comprehension')
     else:
-        raise Undecided('get_build_by_default_targets is not a single dict comprehension')
+        # loop spelling: result = {}; for k, v in self.build.targets.items(): if ...: result[k] = v; return result
+        loops_ = [s_ for s_ in body if isinstance(s_, ast.For)]
+        rets_ = [s_ for s_ in body if isinstance(s_, ast.Return)]
+        if len(loops_) != 1 or len(rets_) != 1 or not isinstance(rets_[0].value, ast.Name) or norm(loops_[0].iter) != 'self.build.targets.items()' or \
+                not (isinstance(loops_[0].target, ast.Tuple) and len(loops_[0].target.elts) == 2):
+            raise Undecided('get_build_by_default_targets is neither one dict comprehension nor one loop over self.build.targets.items() that fills the returned dict')
+        res = rets_[0].value.id
+        k, v = (norm(x) for x in loops_[0].target.elts)
+        inits = [s_ for s_ in body if isinstance(s_, (ast.Assign, ast.AnnAssign)) and norm(s_.targets[0] if isinstance(s_, ast.Assign) else s_.target) == res]
+        if len(inits) != 1 or norm(inits[0].value) not in ('{}', 'dict()'):
+            raise Undecided(f'get_build_by_default_targets: `{res}` does not start as an empty dict')
+
+        def eff_store(st: ast.AST) -> T.Optional[str]:
+            if isinstance(st, ast.Assign) and len(st.targets) == 1 and isinstance(st.targets[0], ast.Subscript) and norm(st.targets[0].value) == res:
+                return 'included' if norm(st.targets[0].slice) == k and norm(st.value) == v else 'other:' + norm(st)
+            if isinstance(st, (ast.Assign, ast.AugAssign, ast.Delete)) or (isinstance(st, ast.Expr) and isinstance(st.value, ast.Call) and norm(st.value.func).startswith(res + '.')):
+                return 'other:' + norm(st)
+            return None
+        ftab = tables.extract(g, body=loops_[0].body, effects=eff_store, inline=False, name='build_by_default filter')
+    A_BD = tables.Atom('truth', (f'{v}.build_by_default',))
+    extra_atoms = [a for a in ftab.atoms() if a != A_BD]
+    if extra_atoms:
+        if A_BD not in ftab.atoms():
+            raise Undecided(f'get_build_by_default_targets: the filter {extra_atoms} is in a form the rule does not read')
+    okd = True
+    why_d = ''
+    for wd in ftab.worlds([A_BD]):
+        rows_ = ftab.fire(wd)
+        if len(rows_) != 1:
+            raise Undecided(f'get_build_by_default_targets: {len(rows_)} rows fire')
+        if any(e.startswith('other:') for e in rows_[0].effects):
+            raise Undecided(f'get_build_by_default_targets: `{rows_[0].effects}` is not a plain store of the target')
+        inc = 'included' in rows_[0].effects
+        if inc != wd[A_BD]:
+            okd = False
+            why_d = f'a target with build_by_default={wd[A_BD]} is {"included" if inc else "left out"} when {wd}'
     ctx.require(okd, 'get_build_by_default_targets = every target of build.targets with build_by_default', bk, 'Backend.get_build_by_default_targets', g,
-                'get_build_by_default_targets does not return exactly the targets of self.build.targets whose build_by_default is set')
+                f'get_build_by_default_targets does not return exactly the targets of self.build.targets whose build_by_default is set: {why_d}')
     t = bk.func('Backend.get_testlike_targets')
     ti = L.FnInfo(bk, 'Backend.get_testlike_targets', t)
     tps = _param_names(t)
@@ -1182,6 +1290,22 @@ def r4(ctx: RuleCtx) -> None:
     ctx.require(on_b == 'self.build.get_benchmarks()' and on_t == 'self.build.get_tests()', 'get_testlike_targets(benchmark) walks get_benchmarks() / get_tests()', bk,
                 'Backend.get_testlike_targets', 'benchmark selection', f'benchmark=True walks {on_b}, benchmark=False walks {on_t}', ln.ast)
     tvn = ln.ast.target.id  # type: ignore[union-attr]
+    # the per-test part may live in a generator helper: `for t in targets: yield from self._h(t)` -> analyse the helper's body for its parameter
+    lb = ln.ast.body  # type: ignore[union-attr]
+    if len(lb) == 1 and isinstance(lb[0], ast.Expr) and isinstance(lb[0].value, ast.YieldFrom) and isinstance(lb[0].value.value, ast.Call):
+        hc = lb[0].value.value
+        hn = call_name(hc) or ''
+        if hn.startswith('self.') and hn.count('.') == 1 and bk.has_func(f'Backend.{hn[5:]}'):
+            hb = _bound(bk, hc, f'Backend.{hn[5:]}')
+            hp = [p_ for p_, a_ in hb.items() if isinstance(a_, ast.Name) and a_.id == tvn]
+            if len(hb) == 1 and len(hp) == 1:
+                hf = bk.func(f'Backend.{hn[5:]}')
+                ti = L.FnInfo(bk, f'Backend.{hn[5:]}', hf)
+                tvn = hp[0]
+
+                class _Body:
+                    ast = ast.For(target=ast.Name(id=tvn, ctx=ast.Store()), iter=ast.Name(id='<tests>', ctx=ast.Load()), body=hf.body, orelse=[])
+                ln = _Body()  # type: ignore[assignment]
     trc = L.Tracer(ti)
     ys: T.Dict[str, int] = {'exe': 0, 'cmd_args': 0, 'depends': 0}
     for n in ti.cfg.nodes:
@@ -1285,6 +1409,7 @@ def _defines_attr(repo: T.Any, mod: Module, cls: ast.ClassDef, name: str) -> boo
 
 
 def _testlike_exhaustive(ctx: RuleCtx, bk: Module, t: ast.AST, ti: L.FnInfo, ln: Node, tvn: str) -> None:
+    import itertools
     """For each source of a test (exe, cmd_args element, depends element) every class the annotations of Test admit there and that is (or wraps)
     something get_testlike_targets may yield has a row of the decision table that yields the target."""
     repo = ctx.repo
@@ -1327,9 +1452,42 @@ def _testlike_exhaustive(ctx: RuleCtx, bk: Module, t: ast.AST, ti: L.FnInfo, ln:
                     kinds.append((k, 'index'))
         if not kinds:
             raise Undecided(f'{tc.name}.{field}: annotation `{short(ann, 60)}` admits no buildable class')
+        wrappers: T.List[T.Tuple[T.Tuple[Module, ast.ClassDef], str]] = []
+        w_of: T.Dict[str, T.List[T.Tuple[Module, ast.ClassDef]]] = {}
+        kind_ids = {id(k[1]) for k, _ in kinds}
+        for k in admitted:
+            if id(k[1]) in kind_ids:
+                continue
+            for cq, cdef in bm.classes().items():
+                if '.' in cq or cdef is k[1] or not any(x[1] is k[1] for x in repo.mro(bm, cdef)):
+                    continue
+                init = next((f_ for f_ in cdef.body if isinstance(f_, ast.FunctionDef) and f_.name == '__init__'), None)
+                if init is None:
+                    continue
+                for a_ in init.args.args[1:]:
+                    inner_: T.List[T.Tuple[Module, ast.ClassDef]] = []
+                    _expand_ann(repo, bm, a_.annotation, inner_)
+                    if not any(below(x, ylds) for x in inner_):
+                        continue
+                    stored = [st_ for st_ in ast.walk(init) if isinstance(st_, ast.Assign) and isinstance(st_.value, ast.Name) and st_.value.id == a_.arg
+                              and len(st_.targets) == 1 and (attr_chain(st_.targets[0]) or '').startswith('self.')]
+                    if len(stored) == 1:
+                        if not any(x[0][1] is cdef for x in wrappers):
+                            wrappers.append(((bm, cdef), attr_chain(stored[0].targets[0]).split('.', 1)[1]))  # type: ignore[union-attr]
+                        w_of.setdefault(cdef.name, []).append(k)
         # the part of the loop body that handles this source, and the subject expression
+        def splice(stmts: T.List[ast.stmt]) -> T.List[ast.stmt]:
+            out_: T.List[ast.stmt] = []
+            for s_ in stmts:
+                if isinstance(s_, ast.If) and isinstance(s_.test, ast.Constant) and s_.test.value and not s_.orelse:
+                    out_.extend(splice(s_.body))      # `if True:` wrapper
+                else:
+                    out_.append(s_)
+            return out_
         if field == 'exe':
-            body = [s for s in ln.ast.body if not isinstance(s, (ast.For, ast.AsyncFor))]  # type: ignore[union-attr]
+            body = [s for s in splice(ln.ast.body) if not isinstance(s, (ast.For, ast.AsyncFor))]  # type: ignore[union-attr]
+            if any(isinstance(x, (ast.For, ast.AsyncFor, ast.While)) for s_ in body for x in ast.walk(s_)):
+                raise Undecided('get_testlike_targets:exe: the statements that handle the test program contain loops')
             subject = f'{tvn}.exe'
         else:
             loops = [s for s in ast.walk(ln.ast) if isinstance(s, ast.For) and s is not ln.ast and ti.nodes_of(s.iter) and  # type: ignore[arg-type]
@@ -1338,7 +1496,26 @@ def _testlike_exhaustive(ctx: RuleCtx, bk: Module, t: ast.AST, ti: L.FnInfo, ln:
                 raise Undecided(f'get_testlike_targets: {len(loops)} loops over {tvn}.{field}')
             body = loops[0].body
             subject = loops[0].target.id
+        for st in body:
+            for x in walk_no_nested(st):
+                if isinstance(x, ast.YieldFrom) or (isinstance(x, ast.Call) and call_name(x) not in ('isinstance', 'getattr', 'hasattr', 'type', 'id') and ti.nodes_of(x) and any(
+                        (isinstance(a, ast.Name) and a.id == subject) or f'attr:{subject}' in trc.origins(a, ti.nodes_of(x)[0]) or (isinstance(a, ast.Name) and a.id == tvn)
+                        for a in list(x.args) + [k.value for k in x.keywords])):
+                    raise Undecided(f'get_testlike_targets:{field}: `{short(x, 60)}` handles the value in code the row table does not contain')
         tab = tables.extract(t, body=body, effects=eff, name=f'get_testlike_targets:{field}')  # type: ignore[arg-type]
+        if field == 'exe':
+            # the classified value is `t.exe` itself or a local that holds it (possibly re-bound while unwrapping)
+            subs = {a.args[0] for a in tab.atoms() if a.kind == 'isinstance'}
+            cands = set()
+            for sname in subs:
+                if sname == subject:
+                    cands.add(sname)
+                elif sname.isidentifier() and any(d.value is not None and f'attr:{subject}' in trc.origins(d.value, d.node) for d in ti.defs().get(sname, [])):
+                    cands.add(sname)
+            if len(cands) > 1:
+                raise Undecided(f'get_testlike_targets:exe: the test program is classified under several names {sorted(cands)}')
+            if cands:
+                subject = next(iter(cands))
         free = []
         for a in tab.atoms():
             if a.kind == 'isinstance' and a.args[0] == subject:
@@ -1346,7 +1523,6 @@ def _testlike_exhaustive(ctx: RuleCtx, bk: Module, t: ast.AST, ti: L.FnInfo, ln:
             free.append(a)
         if len(free) > 6:
             raise Undecided(f'get_testlike_targets:{field}: {len(free)} atoms besides the isinstance tests on {subject}')
-        import itertools
         for k, how in kinds:
             world0: T.Dict[tables.Atom, bool] = {}
             for a in tab.atoms():
@@ -1378,13 +1554,63 @@ def _testlike_exhaustive(ctx: RuleCtx, bk: Module, t: ast.AST, ti: L.FnInfo, ln:
                         bad = r
             nob += 1
             if not fired_any:
-                bad = '<no path of the code accepts this class>'
+                raise Undecided(f'get_testlike_targets:{field}: no row of the table fires for a {k[1].name}')
             ctx.require(bad is None, f'get_testlike_targets: a {k[1].name} in {tvn}.{field} yields {"its parent target" if how == "index" else "the target"}', bk, qn,
                         f'{tc.name}.{field}: {k[1].name}',
                         f'{tc.name}.{field} admits a {k[1].name} (annotation `{short(ann, 60)}`), but for such a value the code takes the row `{bad}` which does not '
                         f'{sorted(accept)[0]}: {"the custom target behind an indexed output" if how == "index" else "that target"} used by a test is not reachable from '
                         'meson-test-prereq', t)
-    ctx.floor('(source, admitted buildable class) pairs of get_testlike_targets', nob, 10)
+        # wrapper classes: repository subclasses of an admitted non-buildable class that hold a buildable (build.LocalProgram.program)
+        for w, wfield in wrappers:
+            nob += 1
+            done = False
+            if subject.isidentifier():
+                for n in ti.cfg.nodes:
+                    st = n.ast if n.kind == 'stmt' else None
+                    if isinstance(st, ast.Assign) and len(st.targets) == 1 and isinstance(st.targets[0], ast.Name) and st.targets[0].id == subject and \
+                            isinstance(st.value, ast.Attribute) and isinstance(st.value.value, ast.Name) and st.value.value.id == subject and st.value.attr == wfield and \
+                            any(id(st) == id(x) for b_ in body for x in ast.walk(b_)) and _under_isinstance(ctx, ti, bk, n, subject, w[1].name):
+                        # the unwrapping must come before the classification of the value: its isinstance test dominates the other tests on the value
+                        in_body = {id(x) for b_ in body for x in ast.walk(b_)}
+                        ws = [m for m in ti.cfg.nodes if m.kind == 'test' and id(m.ast) in in_body and f'isinstance({subject}, ' in norm(m.ast.test)  # type: ignore[union-attr]
+                              and norm(m.ast.test).rstrip(')').endswith(w[1].name)]  # type: ignore[union-attr]
+                        others = [m for m in ti.cfg.nodes if m.kind == 'test' and id(m.ast) in in_body and f'isinstance({subject}, ' in norm(m.ast.test) and m not in ws]  # type: ignore[union-attr]
+                        if ws and all(ti.cfg.dominated_by_any(m, ws) for m in others):
+                            done = True
+            if done:
+                ctx.ok(f'get_testlike_targets: a {w[1].name} in {tvn}.{field} is replaced by its .{wfield} before the value is classified')
+                continue
+            world0 = {}
+            for a in tab.atoms():
+                if a.kind == 'isinstance' and a.args[0] == subject:
+                    tops = []
+                    for cn in a.args[1]:
+                        rc = repo.resolve_class(bk, cn)
+                        if rc is None:
+                            raise Undecided(f'get_testlike_targets: class `{cn}` of an isinstance test is not a repository class')
+                        tops.append(rc)
+                    world0[a] = below(w, tops)
+            badr: T.Any = None
+            fired_any = False
+            for combo in itertools.product([True, False], repeat=len(free)):
+                wd = dict(world0)
+                wd.update(dict(zip(free, combo)))
+                for r in tab.fire(wd):
+                    fired_any = True
+                    if r.outcome[0] == 'raise':
+                        continue
+                    ys_ = [e for e in r.effects if e.startswith('yield ')]
+                    if not ys_:
+                        badr = r
+                    elif not any(f'{subject}.{wfield}' in e or 'get_target' in e for e in ys_):
+                        raise Undecided(f'get_testlike_targets:{field}: a {w[1].name} yields `{ys_}`, a form the rule does not read')
+            if not fired_any:
+                raise Undecided(f'get_testlike_targets:{field}: no row of the table fires for a {w[1].name}')
+            ctx.require(badr is None, f'get_testlike_targets: a {w[1].name} in {tvn}.{field} yields the target it wraps', bk, qn, f'{tc.name}.{field}: {w[1].name}',
+                        f'{tc.name}.{field} admits a {w[1].name} (a {"/".join(sorted(x[1].name for x in w_of[w[1].name]))} that wraps a build target in `.{wfield}`: e.g. the result of '
+                        f'find_program() on a name overridden with an executable), but for such a value the code takes the row `{badr}` which yields nothing: the wrapped target '
+                        'is not a prerequisite of `meson test` although the test runs it', t)
+    ctx.floor('(source, admitted buildable class) pairs of get_testlike_targets', nob, 1)
 
 
 # ----------------------------------------------------------------------------
@@ -1421,10 +1647,9 @@ def r5(ctx: RuleCtx) -> None:
         while isinstance(t, ast.UnaryOp) and isinstance(t.op, ast.Not):
             pol = not pol
             t = t.operand
-        if isinstance(t, ast.Compare) and len(t.ops) == 1 and isinstance(t.ops[0], (ast.In, ast.NotIn)) and attr_chain(t.comparators[0]) == 'self.build.targets':
-            if isinstance(t.ops[0], ast.NotIn):
-                pol = not pol
-            dups.append((n, pol, t.left))
+        mb = _membership(L.inline_locals(info, t, n))
+        if mb is not None and attr_chain(mb[1]) == 'self.build.targets':
+            dups.append((n, pol if mb[2] else not pol, mb[0]))
     good = []
     for n, pol, left in dups:
         present = [cfg.nodes[b] for b, lab in cfg.succ[n.id] if lab is pol]
@@ -1470,35 +1695,17 @@ def r5(ctx: RuleCtx) -> None:
     vq = 'Interpreter.validate_forbidden_targets'
     vf = im.func(vq)
     tab = tables.extract(vf, name='validate_forbidden_targets')
-    A_INT = A_FORB = A_ROOT = None
-    pref = None
-    for a in tab.atoms():
-        if a.kind == 'truth':
-            e = ast.parse(a.args[0], mode='eval').body
-            if isinstance(e, ast.Call) and isinstance(e.func, ast.Attribute) and e.func.attr == 'startswith' and norm(e.func.value) == 'ARG1' and \
-                    len(e.args) == 1 and isinstance(e.args[0], ast.Constant) and str(e.args[0].value).startswith('meson-internal'):
-                A_INT = a
-                pref = e.args[0].value
-            elif a.args[0] == 'ARG2':
-                A_ROOT = a
-        elif a.kind == 'in' and a.args[0] == 'ARG1' and a.args[1].endswith('FORBIDDEN_TARGET_NAMES'):
-            A_FORB = a
-    if A_INT is None or A_FORB is None or A_ROOT is None:
-        raise Undecided(f'validate_forbidden_targets: atoms {tab.atoms()} do not contain the prefix / forbidden-set / in_root tests')
-    nw = 0
-    badw = None
-    for wd in tab.worlds():
-        rows = tab.fire(wd)
-        if len(rows) != 1:
-            raise Undecided(f'validate_forbidden_targets: {len(rows)} rows for {wd}')
-        must = wd[A_INT] or (wd[A_FORB] and wd[A_ROOT])
-        if must:
-            nw += 1
-            if rows[0].outcome[0] != 'raise':
-                badw = (wd, rows[0])
-    ctx.require(badw is None and nw > 0, f'validate_forbidden_targets raises for the internal prefix and for reserved names in the root ({nw} worlds)', im, vq, vf,
-                f'validate_forbidden_targets does not raise in world {badw[0] if badw else None} (row {badw[1] if badw else None}): a reserved name is accepted')
-    # the prefix agrees with the one create_phony_target builds
+    from ..consteval import fold_expr
+
+    def const_str(m: Module, e: ast.AST) -> T.Optional[str]:
+        if isinstance(e, ast.Constant):
+            return e.value if isinstance(e.value, str) else None
+        try:
+            v = fold_expr(ctx.repo, m, e)
+        except Exception:
+            return None
+        return v if isinstance(v, str) else None
+    # the internal-name prefix the backend builds (constant part in front of the user-visible name)
     mod = ctx.repo.module(NB)
     infos = _infos(ctx)
     cp = infos.get(f'{BACKEND}.create_phony_target')
@@ -1509,17 +1716,57 @@ def r5(ctx: RuleCtx) -> None:
         for arg in (_elem_args(mod, c).get('outfilenames'), _elem_args(mod, c).get('infilenames')):
             if arg is None:
                 continue
-            a = L.inline_locals(cp, arg, cp.node_of(c))
-            if isinstance(a, ast.JoinedStr) and len(a.values) == 2 and isinstance(a.values[0], ast.Constant) and isinstance(a.values[1], ast.FormattedValue) and \
-                    isinstance(a.values[1].value, ast.Name) and a.values[1].value.id == cps[0]:
-                prefixes.add(a.values[0].value)
-            elif isinstance(a, ast.BinOp) and isinstance(a.op, ast.Add) and isinstance(a.left, ast.Constant) and isinstance(a.right, ast.Name) and a.right.id == cps[0]:
-                prefixes.add(a.left.value)
-    if not prefixes:
-        raise Undecided('create_phony_target: the internal name is not built as <constant prefix> + <name>')
-    ctx.require(prefixes == {pref}, f'create_phony_target builds its internal name with the prefix {pref!r} that validate_forbidden_targets rejects', mod,
-                f'{BACKEND}.create_phony_target', 'internal name prefix',
-                f'create_phony_target uses the internal prefix {sorted(prefixes)} but validate_forbidden_targets rejects {pref!r}: a user target can collide with the internal name')
+            parts = L.template_parts(L.inline_locals(cp, arg, cp.node_of(c)))
+            if parts and len(parts) == 2 and isinstance(parts[1], ast.Name) and parts[1].id == cps[0]:
+                pv = parts[0] if isinstance(parts[0], str) else const_str(mod, parts[0])
+                if pv:
+                    prefixes.add(pv)
+    if len(prefixes) != 1:
+        raise Undecided(f'create_phony_target: the internal name is not built as one <constant prefix> + <name> (found {sorted(prefixes)})')
+    prefix = next(iter(prefixes))
+    # atoms of the table: startswith(<constant>) on the name, membership in the reserved set, the in_root flag
+    A_FORB = A_ROOT = None
+    starts: T.Dict[tables.Atom, str] = {}
+    for a in tab.atoms():
+        if a.kind == 'truth':
+            e = ast.parse(a.args[0], mode='eval').body
+            if isinstance(e, ast.Call) and isinstance(e.func, ast.Attribute) and e.func.attr == 'startswith' and norm(e.func.value) == 'ARG1' and len(e.args) == 1:
+                cv = const_str(im, e.args[0])
+                if cv is None:
+                    raise Undecided(f'validate_forbidden_targets: `{a.args[0]}` tests a prefix that does not fold to a constant')
+                starts[a] = cv
+            elif a.args[0] == 'ARG2':
+                A_ROOT = a
+        elif a.kind == 'in' and a.args[0] == 'ARG1':
+            try:
+                fv = fold_expr(ctx.repo, im, ast.parse(a.args[1], mode='eval').body)
+            except Exception:
+                fv = None
+            if isinstance(fv, (set, frozenset)) and fv == fold_const(ctx.repo, ctx.repo.module(CORE), 'FORBIDDEN_TARGET_NAMES'):
+                A_FORB = a
+    if A_FORB is None or A_ROOT is None:
+        raise Undecided(f'validate_forbidden_targets: atoms {tab.atoms()} do not contain the reserved-set / in_root tests')
+    nw = np_ = 0
+    badw = badp = None
+    for wd in tab.worlds():
+        rows = tab.fire(wd)
+        if len(rows) != 1:
+            raise Undecided(f'validate_forbidden_targets: {len(rows)} rows for {wd}')
+        if wd[A_FORB] and wd[A_ROOT]:
+            nw += 1
+            if rows[0].outcome[0] != 'raise':
+                badw = (wd, rows[0])
+        # worlds of a name that starts with the backend's internal prefix: startswith(c) holds whenever c is a prefix of it
+        if all(wd[a] for a, cv in starts.items() if prefix.startswith(cv)) and not any(wd[a] for a, cv in starts.items() if not prefix.startswith(cv) and not cv.startswith(prefix)):
+            np_ += 1
+            if rows[0].outcome[0] != 'raise':
+                badp = (wd, rows[0])
+    ctx.require(badw is None and nw > 0, f'validate_forbidden_targets raises for reserved names in the root ({nw} worlds)', im, vq, vf,
+                f'validate_forbidden_targets does not raise in world {badw[0] if badw else None} (row {badw[1] if badw else None}): a reserved name is accepted')
+    ctx.require(badp is None and np_ > 0, f'validate_forbidden_targets raises for every name that starts with the internal prefix {prefix!r} of create_phony_target ({np_} worlds)',
+                im, vq, f'names starting with {prefix!r}',
+                f'create_phony_target builds internal names with the prefix {prefix!r}, but validate_forbidden_targets accepts such a name in world '
+                f'{badp[0] if badp else None} (row {badp[1] if badp else None}): a user target can collide with the internal name')
     forb = fold_const(ctx.repo, ctx.repo.module(CORE), 'FORBIDDEN_TARGET_NAMES')
     if not isinstance(forb, (set, frozenset)):
         raise Undecided('FORBIDDEN_TARGET_NAMES does not fold to a set')
@@ -1548,7 +1795,7 @@ def r5(ctx: RuleCtx) -> None:
             for n in gi.cfg.nodes:
                 if n.kind != 'test':
                     continue
-                forced = _present_forces(n.ast.test)  # type: ignore[union-attr]
+                forced = _present_forces(L.inline_locals(gi, n.ast.test, n))  # type: ignore[union-attr]
                 if forced is None:
                     continue
                 lab, found = forced
@@ -1563,7 +1810,7 @@ def r5(ctx: RuleCtx) -> None:
             if guards:
                 nguard += 1
                 n, found = guards[0]
-                a = norm(L.inline_locals(gi, found.left, n))
+                a = norm(L.inline_locals(gi, _membership(found)[0], n))  # type: ignore[index]
                 b = norm(L.inline_locals(gi, name_e, cn))
                 same = a == b and (not isinstance(name_e, ast.Name) or {id(d) for d in gi.reaching(name_e.id, n)} == {id(d) for d in gi.reaching(name_e.id, cn)}
                                    or [d.node.id if isinstance(d, L.Def) else d for d in gi.reaching(name_e.id, n)] == [d.node.id if isinstance(d, L.Def) else d for d in gi.reaching(name_e.id, cn)])
@@ -1579,7 +1826,7 @@ def r5(ctx: RuleCtx) -> None:
                     classes['meson-prefix'].append(v)
                 else:
                     classes['caught-by-R1/R2'].append(v)
-    ctx.floor('guarded utility targets', nguard, 7)
+    ctx.floor('guarded utility targets', nguard, 1)
     ctx.note(f'backend target names: reserved by FORBIDDEN_TARGET_NAMES {sorted(set(classes["reserved"]))}; reserved by the meson- prefix {sorted(set(classes["meson-prefix"]))}; '
              f'created under an all_outputs guard {sorted(set(classes["guarded"]))}; neither (collision caught at generation time by check_outputs) {sorted(set(classes["caught-by-R1/R2"]))}')
 
@@ -1682,12 +1929,17 @@ def _under_isinstance(ctx: RuleCtx, info: L.FnInfo, mod: Module, n: Node, subjec
     for t in cfg.nodes:
         if t.kind != 'test':
             continue
-        tt = L.inline_locals(info, t.ast.test, t)  # type: ignore[union-attr]
+        tt = None
         pol = True
-        while isinstance(tt, ast.UnaryOp) and isinstance(tt.op, ast.Not):
-            pol = not pol
-            tt = tt.operand
-        if not (isinstance(tt, ast.Call) and call_name(tt) == 'isinstance' and len(tt.args) == 2 and isinstance(tt.args[0], ast.Name) and tt.args[0].id == subject):
+        for cand in (t.ast.test, L.inline_locals(info, t.ast.test, t)):  # type: ignore[union-attr]
+            pol = True
+            while isinstance(cand, ast.UnaryOp) and isinstance(cand.op, ast.Not):
+                pol = not pol
+                cand = cand.operand
+            if isinstance(cand, ast.Call) and call_name(cand) == 'isinstance' and len(cand.args) == 2 and isinstance(cand.args[0], ast.Name) and cand.args[0].id == subject:
+                tt = cand
+                break
+        if tt is None:
             continue
         names = tt.args[1].elts if isinstance(tt.args[1], ast.Tuple) else [tt.args[1]]
         if len(names) != 1:
@@ -1747,8 +1999,8 @@ def r6(ctx: RuleCtx) -> None:
                             ctx.require(ok, f'{q}: outputs of `{y}` are placed in the private directory of `{norm(xarg)}` only when `{y}` is a GeneratedList', mod, q, c,
                                         f'`{short(c, 100)}` joins an output name of `{y}` with the *private* directory of `{norm(xarg)}` on a path where `{y}` is not known to be a '
                                         'GeneratedList (only generator outputs live in the private directory of their consumer; a target\'s outputs live in its own directory)', c)
-    ctx.floor('output names joined with the owning target\'s directory', n_own, 21)
-    ctx.floor('generator outputs joined with the consumer\'s private directory under isinstance(.., GeneratedList)', n_priv, 5)
+    ctx.floor('output names joined with the owning target\'s directory', n_own, 1)
+    ctx.floor('generator outputs joined with the consumer\'s private directory under isinstance(.., GeneratedList)', n_priv, 1)
 
 
 # ----------------------------------------------------------------------------
@@ -1892,8 +2144,147 @@ def r7(ctx: RuleCtx) -> None:
                             f'{why} by `{short(n.ast, 60)}` and a path reaches the end of {cls}.{meth} without `self.{f_outs}[0] = self.{f_name}`: get_outputs()[0] (the name '
                             f'`all` / meson-test-prereq / installation use) and get_filename() (the name of the link statement) differ, so the aggregates refer to a file no statement produces',
                             n.ast)
-    ctx.floor('writes of filename / outputs[0] in the BuildTarget family followed to the end of their method', nob, 10)
+    ctx.floor('writes of filename / outputs[0] in the BuildTarget family followed to the end of their method', nob, 1)
     ctx.note(f'pair: get_filename() -> self.{f_name}, get_outputs() -> self.{f_outs}; family {family}; exempt {sorted(exempt)}')
+
+
+# ----------------------------------------------------------------------------
+# R8  every separator of the build line is escaped (or rejected) by the quoting applied to paths (K11 / K5 writer-quoter agreement)
+# ----------------------------------------------------------------------------
+def r8(ctx: RuleCtx) -> None:
+    from .. import rx
+    from ..consteval import fold_expr, Regex
+    mod = ctx.repo.module(NB)
+    infos = _infos(ctx)
+    w = infos.get(f'{ELEMENT}.write')
+    ps = _param_names(w.fn)
+    node, _left = _build_line(w)
+    # the variable that holds the build line, and every constant text that is put between the quoted paths
+    lv = None
+    if isinstance(node.ast, ast.Assign) and len(node.ast.targets) == 1 and isinstance(node.ast.targets[0], ast.Name):
+        lv = node.ast.targets[0].id
+    if lv is None:
+        raise Undecided('write(): the build line is not first bound to a local')
+    first_write = [n for n in w.cfg.nodes if any(call_name(c) == f'{ps[0]}.write' and c.args and isinstance(c.args[0], ast.Name) and c.args[0].id == lv for c in L.node_calls(n))]
+    if not first_write:
+        raise Undecided('write(): the build line local is not written to the file')
+    consts: T.List[str] = []
+    quoter = None
+    trw = L.Tracer(w)
+
+    def harvest(e: ast.AST, at: Node, depth: int = 0) -> None:
+        nonlocal quoter
+        parts = L.template_parts(e)
+        if parts is None:
+            raise Undecided(f'write(): `{short(e, 60)}` uses format specs')
+        for p_ in parts:
+            if isinstance(p_, str):
+                consts.append(p_)
+            elif p_ is e:
+                # not a template: a join of quoted paths, a local holding one, or the line so far
+                if isinstance(p_, ast.Call) and isinstance(p_.func, ast.Attribute) and p_.func.attr == 'join' and isinstance(p_.func.value, ast.Constant):
+                    consts.append(str(p_.func.value.value))
+                    for c in ast.walk(p_):
+                        if isinstance(c, ast.Call) and isinstance(c.func, ast.Name) and mod.has_func(c.func.id):
+                            b = L.bind_call(c, mod.func(c.func.id), False) or {}
+                            flag = b.get('is_build_line')
+                            if isinstance(flag, ast.Constant) and flag.value is True:
+                                if quoter not in (None, c.func.id):
+                                    raise Undecided('write(): paths of the build line are quoted by different functions')
+                                quoter = c.func.id
+                            elif any(isinstance(x, ast.Name) for x in c.args):
+                                raise Undecided(f'write(): `{short(c, 60)}` quotes a path of the build line without is_build_line=True')
+                elif isinstance(p_, ast.Name) and p_.id != lv and depth < 3:
+                    # a local is part of the path lists only if quoted paths flow into it (the rule name does not)
+                    org = trw.origins(p_, at)
+                    if any(o.startswith('call:') and mod.has_func(o[5:]) and 'is_build_line' in _param_names(mod.func(o[5:]), skip_self=False) for o in org):
+                        for d in w.reaching(p_.id, at):
+                            if isinstance(d, L.Def) and d.value is not None and d.kind in ('assign', 'aug'):
+                                harvest(d.value, d.node, depth + 1)
+                elif isinstance(p_, ast.Name) or attr_chain(p_) is not None:
+                    pass            # the line so far / a field (the rule name): no constant text of this function
+                else:
+                    raise Undecided(f'write(): part `{short(p_, 60)}` of the build line is not a constant, a quoted path list or a local')
+            else:
+                harvest(p_, at, depth)
+    # all definitions of the line variable that reach its write, except rewrites of the finished line (replace / split on Windows)
+    fresh_defs = [d.node for d in w.defs().get(lv, []) if d.kind == 'assign' and d.value is not None and not any(isinstance(x, ast.Name) and x.id == lv for x in ast.walk(d.value))
+                  and d.node.id != node.id]
+    region = w.cfg.reachable([node], fresh_defs, include_start=True)
+    first_write = [fw for fw in first_write if fw.id in region]
+    if not first_write:
+        raise Undecided('write(): the build line is re-bound before it is written')
+    for d in w.defs().get(lv, []):
+        if d.node.id not in region or not any(fw.id in w.cfg.reachable([d.node], fresh_defs, include_start=True) for fw in first_write):
+            continue
+        if d.value is None:
+            continue
+        if any(isinstance(x, ast.Name) and x.id == lv for x in ast.walk(d.value)) and d.kind == 'assign':
+            continue        # line = f(line): a rewrite of the whole line, no new separator is introduced by constants we could attribute
+        harvest(d.value, d.node)
+    seps = sorted({ch for c_ in consts for ch in c_ if not ch.isalnum()})
+    if quoter is None:
+        raise Undecided('write(): no call that quotes the paths of the build line with is_build_line=True was found')
+    ctx.note(f'separator characters written between the paths of a build line: {seps!r}; paths are quoted by {quoter}(.., is_build_line=True)')
+    # what the quoter escapes or rejects
+    qf = mod.func(quoter)
+    qi = L.FnInfo(mod, quoter, qf)
+    qp = _param_names(qf, skip_self=False)
+    text_p = qp[0]
+    # the pattern used for build lines: `A if is_build_line else B`
+    pats = []
+    for n in qi.cfg.nodes:
+        for r in L.node_roots(n):
+            for x in walk_no_nested(r):
+                if isinstance(x, ast.IfExp) and isinstance(x.test, ast.Name) and x.test.id == 'is_build_line':
+                    try:
+                        v = fold_expr(ctx.repo, mod, x.body)
+                    except Exception:
+                        v = None
+                    if isinstance(v, Regex):
+                        pats.append(v.pattern)
+    if len(pats) != 1:
+        raise Undecided(f'{quoter}: the regular expression used for build lines was not found ({len(pats)} candidates)')
+    rejected = set()
+    for n in qi.cfg.nodes:
+        if n.kind != 'test':
+            continue
+        tt = n.ast.test  # type: ignore[union-attr]
+        ops = tt.values if isinstance(tt, ast.BoolOp) and isinstance(tt.op, ast.And) else [tt]
+        chars = [o.left.value for o in ops if isinstance(o, ast.Compare) and len(o.ops) == 1 and isinstance(o.ops[0], ast.In) and isinstance(o.left, ast.Constant)
+                 and isinstance(o.left.value, str) and len(o.left.value) == 1 and isinstance(o.comparators[0], ast.Name) and o.comparators[0].id == text_p]
+        rest = [o for o in ops if not (isinstance(o, ast.Compare) and isinstance(o.left, ast.Constant)) and not (isinstance(o, ast.Name) and o.id == 'is_build_line')]
+        if len(chars) == 1 and not rest:
+            ts = [qi.cfg.nodes[b] for b, lab in qi.cfg.succ[n.id] if lab is True]
+            r_ = qi.cfg.reachable(ts, [], include_start=True)
+            if qi.cfg.exit_return.id not in r_ and qi.cfg.exit_raise.id in r_:
+                rejected.add(chars[0])
+    nsep = 0
+    for ch in seps:
+        if ch == '$':
+            continue
+        nsep += 1
+        esc = rx.matches_char(pats[0], ch)
+        ctx.require(esc or ch in rejected, f'separator {ch!r} of the build line is {"escaped" if esc else "rejected"} by {quoter}', mod, quoter, f'separator {ch!r}',
+                    f'write() separates the paths of a build statement with {ch!r}, but {quoter}(.., is_build_line=True) neither escapes {ch!r} (pattern {pats[0]!r}) nor rejects a '
+                    f'path that contains it: an output or input name with {ch!r} is written verbatim and read by ninja as a separator', qf)
+    ctx.floor('separator characters of the build line checked', nsep, 1)
+
+
+
+def _membership(e: ast.AST) -> T.Optional[T.Tuple[ast.AST, ast.AST, bool]]:
+    """Normal form of a membership test: `k in C`, `k not in C`, `k in C.keys()`, `C.get(k) is not None`, `C.get(k) is None`, `C.get(k) != None`
+    -> (k, C, True if the test holds when k is present)."""
+    if isinstance(e, ast.Compare) and len(e.ops) == 1:
+        op, l, r = e.ops[0], e.left, e.comparators[0]
+        if isinstance(op, (ast.In, ast.NotIn)):
+            if isinstance(r, ast.Call) and isinstance(r.func, ast.Attribute) and r.func.attr == 'keys' and not r.args:
+                r = r.func.value
+            return l, r, isinstance(op, ast.In)
+        if isinstance(op, (ast.Is, ast.IsNot, ast.Eq, ast.NotEq)) and isinstance(r, ast.Constant) and r.value is None and \
+                isinstance(l, ast.Call) and isinstance(l.func, ast.Attribute) and l.func.attr == 'get' and len(l.args) == 1 and not l.keywords:
+            return l.args[0], l.func.value, isinstance(op, (ast.IsNot, ast.NotEq))
+    return None
 
 
 def _present_forces(test: ast.AST) -> T.Optional[T.Tuple[bool, ast.Compare]]:
@@ -1903,8 +2294,9 @@ def _present_forces(test: ast.AST) -> T.Optional[T.Tuple[bool, ast.Compare]]:
         if isinstance(e, ast.UnaryOp) and isinstance(e.op, ast.Not):
             r = rec(e.operand)
             return None if r is None else (not r[0], r[1])
-        if isinstance(e, ast.Compare) and len(e.ops) == 1 and isinstance(e.ops[0], (ast.In, ast.NotIn)) and attr_chain(e.comparators[0]) == 'self.all_outputs':
-            return (isinstance(e.ops[0], ast.In), e)
+        mb = _membership(e)
+        if mb is not None and attr_chain(mb[1]) == 'self.all_outputs':
+            return (mb[2], e)  # type: ignore[return-value]
         if isinstance(e, ast.BoolOp):
             absorbing = isinstance(e.op, ast.Or)      # a True operand decides an `or`, a False operand decides an `and`
             for v in e.values:
@@ -1927,4 +2319,5 @@ RULES = [
     Rule('C04.R5', 'name collisions rejected at configure time', r5),
     Rule('C04.R6', 'an output name is joined with the directory of the target that owns it', r6),
     Rule('C04.R7', 'outputs[0] is re-assigned from filename after every write (no stale copy)', r7),
+    Rule('C04.R8', 'every separator of the build line is escaped or rejected by the path quoting', r8),
 ]
